@@ -172,7 +172,18 @@ func (db *MemDB) AwaitProposal(ctx context.Context, slot uint64) (*eth2api.Versi
 	case <-ctx.Done():
 		return nil, ctx.Err()
 	case block := <-response:
-		return block, nil
+		// Clone before returning, the stored value is shared with all other readers.
+		clone, err := core.VersionedProposal{VersionedProposal: *block}.Clone()
+		if err != nil {
+			return nil, err
+		}
+
+		proposal, ok := clone.(core.VersionedProposal)
+		if !ok {
+			return nil, errors.New("invalid versioned proposal")
+		}
+
+		return &proposal.VersionedProposal, nil
 	}
 }
 
